@@ -439,14 +439,20 @@ fn check_enc(c: &EncCase, obs: &mut Obs) -> CheckResult {
   // Generator soundness: every recipient lies in the accept region of the header policy (C11), recipients agree
   // on b64, and no custom name collides with a name the header types have a field for.
   let first_p = c.recipients[0].protected.as_deref();
+  // Recipients that disagree on b64 form their own class: the encoder has to refuse them (C11); should it emit a
+  // token all the same, C08 still demands that the library can decode what it produced.
+  let mut mixed_b64 = false;
   for r in &c.recipients {
     let sound = header_rules(r.protected.as_deref(), r.unprotected.as_deref()).is_empty()
-      && (r.protected.is_some() || r.unprotected.is_some())
-      && b64_agreement(first_p, r.protected.as_deref()) != B64Agreement::Disagree;
+      && (r.protected.is_some() || r.unprotected.is_some());
     if !sound {
       obs.discard("headers-outside-accept-region");
       return Ok(());
     }
+    mixed_b64 |= b64_agreement(first_p, r.protected.as_deref()) == B64Agreement::Disagree;
+  }
+  if mixed_b64 {
+    obs.label("enc:general:mixed-b64-recipients");
   }
   let b64 = effective_b64(first_p);
   let built: Vec<Built> = {
@@ -491,6 +497,26 @@ fn check_enc(c: &EncCase, obs: &mut Obs) -> CheckResult {
     Ok(Ok(p)) => p,
   };
   let token = produced.token.as_str();
+  if mixed_b64 {
+    // the rest of the oracle presumes one b64 value per token; here only decodability is judged
+    let detached_owned: Option<Vec<u8>> = if c.detached { Some(payload.clone()) } else { None };
+    let outcome = catch(|| {
+      Decoder::new()
+        .decode_general_serialization(token.as_bytes(), detached_owned.as_deref())
+        .map(|iter| iter.count())
+    });
+    return match outcome {
+      Err(p) => obs.fail(format!("{form}-decoder-panics"), format!("decoder panicked: {}", p.msg)),
+      Ok(Err(e)) => obs.fail(
+        "general-encoder-emits-mixed-b64-token-the-decoder-rejects",
+        format!("the general encoder accepted recipients that disagree on b64 and produced a token its own decoder rejects: {e}; token {}", short(token, 400)),
+      ),
+      Ok(Ok(_)) => {
+        obs.label("enc:general:mixed-b64-token-decoded");
+        Ok(())
+      }
+    };
+  }
 
   // ---- independent view of the token
   let parsed = match c.form {
@@ -1317,15 +1343,45 @@ fn enc_strategy() -> impl Strategy<Value = Case> {
   (form, b64, any::<bool>(), any::<bool>(), payload_spec()).prop_flat_map(|(form, b64, detached, url_safe, payload)| {
     let n = if form == Form::General { 1..=4usize } else { 1..=1usize };
     // recipients of one token: b64 agrees effectively; `true` may be spelled out or left out per recipient
-    let recips = prop::collection::vec(
+    let agreeing = move || {
       any::<bool>().prop_flat_map(move |spell_out| {
         let literal = match b64 {
           Some(true) if !spell_out => None,
           other => other,
         };
         recip_strategy(form, literal)
-      }),
-      n,
+      })
+    };
+    // one token in eight (general form only) gets a last recipient whose b64 disagrees with the others
+    let deviating = move || {
+      let other = match b64 {
+        Some(false) => prop_oneof![Just(None), Just(Some(true))].boxed(),
+        _ => Just(Some(false)).boxed(),
+      };
+      // half of the deviating recipients carry no protected header at all (only `alg` in the unprotected one)
+      (other, any::<bool>(), 0u8..4).prop_flat_map(move |(literal, header_less, key)| {
+        if header_less {
+          Just(Recip {
+            key,
+            protected: None,
+            unprotected: Some(vec![("alg".to_string(), json!("EdDSA"))]),
+          })
+          .boxed()
+        } else {
+          recip_strategy(form, literal).boxed()
+        }
+      })
+    };
+    let recips = (prop::collection::vec(agreeing(), n), prop_oneof![7 => Just(false), 1 => Just(true)], deviating()).prop_map(
+      move |(mut list, mixed, odd)| {
+        if mixed && form == Form::General {
+          if list.len() >= 4 {
+            list.pop();
+          }
+          list.push(odd);
+        }
+        list
+      },
     );
     (recips, Just(payload)).prop_map(move |(recipients, payload)| {
       Case::Enc(EncCase {
